@@ -187,7 +187,7 @@ def main(ctx):
                "vf_minwindow", "vf_bias_half", "vf_bias_double", "findEventCandidates_v", "setTriggeredEvents"]
     J(cbmc_unit, "localize.takeOneStep_events", [loc], "h_events", enforce="takeOneStep_events", replace=LOCREPL, loop_contracts=True,
       cbmc_args=["--object-bits", "12", "--no-pointer-check", "--no-bounds-check", "--no-signed-overflow-check", "--no-undefined-shift-check", "--no-pointer-primitive-check"], require_props=[r"postcondition", r"loop_invariant_step", r"loop_invariant_base", r"precondition"], min_obligations=30,
-      function="AbstractIntegratorRep::takeOneStep (event detection + localisation part)", timeout=600)
+      function="AbstractIntegratorRep::takeOneStep (event detection + localisation part)", timeout=900)   # ~240 s on an idle machine; head-room for a loaded one
     J(cbmc_unit, "localize.setTriggeredEvents", [loc], "h_setTriggered", enforce="setTriggeredEvents", cbmc_args=CHK,
       require_props=[r"postcondition"], function="IntegratorRep::setTriggeredEvents (window bookkeeping)", timeout=300)
     # --- findEventCandidates: the real loop over contracted sequence stubs ---
